@@ -4717,3 +4717,301 @@ mod tests {
 		assert_eq!(cltv, trampoline_cltv_expiry + first_hop_delta);
 	}
 }
+
+/// Verification hooks (feature `_verif_hooks` only); see `ln::verif_hooks`. Thin wrappers that
+/// expose the onion construction, peeling and failure-packet primitives on plain byte strings.
+#[cfg(feature = "_verif_hooks")]
+pub mod verif_hooks_onion {
+	use super::*;
+	use crate::util::ser::FixedLengthReader;
+
+	/// Everything a hop derives from the ECDH shared secret, plus the ephemeral key it is sent.
+	pub struct HopKeys {
+		/// The ECDH shared secret.
+		pub shared_secret: [u8; 32],
+		/// The blinding factor applied to the ephemeral key for the next hop.
+		pub blinding_factor: [u8; 32],
+		/// The ephemeral public key this hop sees in the packet.
+		pub ephemeral_pubkey: PublicKey,
+		/// Stream key of the forward onion.
+		pub rho: [u8; 32],
+		/// HMAC key of the forward onion.
+		pub mu: [u8; 32],
+		/// HMAC key of failure packets.
+		pub um: [u8; 32],
+		/// Stream key of failure packets.
+		pub ammag: [u8; 32],
+		/// Stream key of attribution data.
+		pub ammagext: [u8; 32],
+	}
+
+	/// `construct_onion_keys_generic` plus the `gen_*_from_shared_secret` derivations. The second
+	/// component is what `construct_onion_keys` returns (ephemeral key, rho, mu) for the same path.
+	pub fn hop_keys<T: secp256k1::Signing>(
+		secp_ctx: &Secp256k1<T>, path: &Path, session_priv: &SecretKey,
+	) -> (Vec<HopKeys>, Vec<(PublicKey, [u8; 32], [u8; 32])>) {
+		let blinded_tail = path.blinded_tail.as_ref().and_then(|t| {
+			if !t.trampoline_hops.is_empty() {
+				return None;
+			}
+			Some(t)
+		});
+		let generic = construct_onion_keys_generic(secp_ctx, &path.hops, blinded_tail, session_priv)
+			.map(|(shared_secret, blinding_factor, ephemeral_pubkey, _, _)| {
+				let (rho, mu) = gen_rho_mu_from_shared_secret(shared_secret.as_ref());
+				HopKeys {
+					shared_secret: shared_secret.secret_bytes(),
+					blinding_factor,
+					ephemeral_pubkey,
+					rho,
+					mu,
+					um: gen_um_from_shared_secret(shared_secret.as_ref()),
+					ammag: gen_ammag_from_shared_secret(shared_secret.as_ref()),
+					ammagext: gen_ammagext_from_shared_secret(shared_secret.as_ref()),
+				}
+			})
+			.collect();
+		let keys = construct_onion_keys(secp_ctx, path, session_priv)
+			.into_iter()
+			.map(|k| (k.ephemeral_pubkey, k.rho, k.mu))
+			.collect();
+		(generic, keys)
+	}
+
+	/// `build_onion_payloads`, each payload serialized as it is placed into the packet.
+	pub fn payment_payloads(
+		path: &Path, recipient_onion: &RecipientOnionFields, cur_block_height: u32,
+		keysend_preimage: &Option<PaymentPreimage>,
+	) -> Result<(Vec<Vec<u8>>, u64, u32), APIError> {
+		let (payloads, value_msat, cltv) = build_onion_payloads(
+			path,
+			recipient_onion,
+			cur_block_height,
+			keysend_preimage,
+			None,
+			None,
+		)?;
+		Ok((payloads.iter().map(|p| p.encode()).collect(), value_msat, cltv))
+	}
+
+	struct RawPayload(Vec<u8>);
+	impl Writeable for RawPayload {
+		fn write<W: Writer>(&self, w: &mut W) -> Result<(), crate::io::Error> {
+			w.write_all(&self.0)
+		}
+	}
+
+	struct RawPacket {
+		data: Vec<u8>,
+		hmac: [u8; 32],
+	}
+	impl Packet for RawPacket {
+		type Data = Vec<u8>;
+		fn new(_pubkey: PublicKey, hop_data: Vec<u8>, hmac: [u8; 32]) -> Self {
+			Self { data: hop_data, hmac }
+		}
+	}
+
+	/// `construct_onion_packet_with_init_noise` on already-serialized payloads, explicit per-hop
+	/// `(rho, mu)` keys and explicit initial packet bytes. Returns `(hop_data, hmac)`.
+	pub fn construct_raw(
+		payloads: Vec<Vec<u8>>, rho_mu: Vec<([u8; 32], [u8; 32])>, init_noise: Vec<u8>,
+		associated_data: Option<[u8; 32]>,
+	) -> Result<(Vec<u8>, [u8; 32]), ()> {
+		let secp_ctx = Secp256k1::signing_only();
+		let ephemeral_pubkey =
+			PublicKey::from_secret_key(&secp_ctx, &SecretKey::from_slice(&[1; 32]).unwrap());
+		let onion_keys = rho_mu
+			.into_iter()
+			.map(|(rho, mu)| OnionKeys { ephemeral_pubkey, rho, mu })
+			.collect();
+		let payloads = payloads.into_iter().map(RawPayload).collect();
+		let associated_data = associated_data.map(PaymentHash);
+		let packet: RawPacket = construct_onion_packet_with_init_noise::<_, _>(
+			payloads,
+			onion_keys,
+			init_noise,
+			associated_data.as_ref(),
+		)?;
+		Ok((packet.data, packet.hmac))
+	}
+
+	/// The initial packet bytes `construct_onion_packet` derives from `prng_seed`.
+	pub fn init_noise(prng_seed: [u8; 32], len: usize) -> Vec<u8> {
+		let mut packet_data = vec![0u8; len];
+		let mut chacha = ChaCha20::new(Key::new(prng_seed), Nonce::new([0; 12]), 0);
+		chacha.apply_keystream(&mut packet_data);
+		packet_data
+	}
+
+	struct RawRead(Vec<u8>);
+	impl ReadableArgs<()> for RawRead {
+		fn read<R: Read>(r: &mut R, _args: ()) -> Result<Self, DecodeError> {
+			let len = BigSize::read(r)?;
+			let mut rd = FixedLengthReader::new(r, len.0);
+			let mut content = Vec::new();
+			rd.read_to_limit(&mut content, u64::MAX).map_err(|_| DecodeError::ShortRead)?;
+			if content.len() as u64 != len.0 {
+				return Err(DecodeError::ShortRead);
+			}
+			Ok(RawRead(content))
+		}
+	}
+
+	/// `decode_next_hop` with a payload reader that returns the length-prefixed payload bytes
+	/// uninterpreted. `Ok((payload, None))` is the final hop; `Ok((payload, Some((hmac, bytes))))`
+	/// carries the next packet. Errors are `"hmac"` or `"relay:<reason>"`.
+	pub fn decode_next_hop_raw(
+		shared_secret: [u8; 32], hop_data: &[u8], hmac_bytes: [u8; 32],
+		payment_hash: Option<[u8; 32]>,
+	) -> Result<(Vec<u8>, Option<([u8; 32], Vec<u8>)>), String> {
+		let res: Result<(RawRead, Option<([u8; 32], Vec<u8>)>), OnionDecodeErr> =
+			decode_next_hop(shared_secret, hop_data, hmac_bytes, payment_hash.map(PaymentHash), ());
+		match res {
+			Ok((payload, next)) => Ok((payload.0, next)),
+			Err(OnionDecodeErr::Malformed { reason, .. }) => {
+				if reason == LocalHTLCFailureReason::InvalidOnionHMAC {
+					Err("hmac".to_owned())
+				} else {
+					Err(format!("malformed:{:?}", reason))
+				}
+			},
+			Err(OnionDecodeErr::Relay { reason, .. }) => Err(format!("relay:{:?}", reason)),
+		}
+	}
+
+	fn attr_to_bytes(attribution_data: &Option<AttributionData>) -> Option<Vec<u8>> {
+		attribution_data.as_ref().map(|a| a.encode())
+	}
+
+	fn attr_from_bytes(bytes: &Option<Vec<u8>>) -> Option<AttributionData> {
+		bytes.as_ref().map(|b| {
+			let mut a = AttributionData::new();
+			a.hold_times.copy_from_slice(&b[..MAX_HOPS * HOLD_TIME_LEN]);
+			a.hmacs.copy_from_slice(&b[MAX_HOPS * HOLD_TIME_LEN..]);
+			a
+		})
+	}
+
+	/// `build_failure_packet`; returns `(data, attribution_data)`.
+	pub fn build_failure(
+		shared_secret: &[u8; 32], failure_code: u16, failure_data: &[u8], hold_time: u32,
+	) -> (Vec<u8>, Option<Vec<u8>>) {
+		let packet =
+			build_failure_packet(shared_secret, failure_code.into(), failure_data, hold_time);
+		(packet.data, attr_to_bytes(&packet.attribution_data))
+	}
+
+	/// What a forwarding node does with a failure received from downstream:
+	/// `process_failure_packet` followed by `crypt_failure_packet`.
+	pub fn wrap_failure(
+		shared_secret: &[u8; 32], data: Vec<u8>, attribution_data: Option<Vec<u8>>, hold_time: u32,
+	) -> (Vec<u8>, Option<Vec<u8>>) {
+		let mut packet =
+			OnionErrorPacket { data, attribution_data: attr_from_bytes(&attribution_data) };
+		process_failure_packet(&mut packet, shared_secret, hold_time);
+		crypt_failure_packet(shared_secret, &mut packet);
+		(packet.data, attr_to_bytes(&packet.attribution_data))
+	}
+
+	/// The same through `HTLCFailReason::get_encrypted_failure_packet`, as `ChannelManager` does.
+	pub fn wrap_failure_via_reason(
+		shared_secret: &[u8; 32], data: Vec<u8>, attribution_data: Option<Vec<u8>>, hold_time: u32,
+	) -> (Vec<u8>, Option<Vec<u8>>) {
+		let mut reason = HTLCFailReason(HTLCFailReasonRepr::LightningError {
+			err: OnionErrorPacket { data, attribution_data: attr_from_bytes(&attribution_data) },
+			hold_time: None,
+		});
+		reason.set_hold_time(hold_time);
+		let packet = reason.get_encrypted_failure_packet(shared_secret, &None);
+		(packet.data, attr_to_bytes(&packet.attribution_data))
+	}
+
+	/// The sender's view of a failure.
+	pub struct DecodedFailure {
+		/// `onion_error_code`, as its wire value.
+		pub code: Option<u16>,
+		/// `onion_error_data`.
+		pub data: Option<Vec<u8>>,
+		/// `hold_times`.
+		pub hold_times: Vec<u32>,
+		/// `short_channel_id`.
+		pub short_channel_id: Option<u64>,
+		/// Node named by a `NetworkUpdate::NodeFailure`.
+		pub failed_node: Option<PublicKey>,
+		/// Channel named by a `NetworkUpdate::ChannelFailure`.
+		pub failed_channel: Option<u64>,
+		/// `payment_failed_permanently`.
+		pub payment_failed_permanently: bool,
+		/// `failed_within_blinded_path`.
+		pub failed_within_blinded_path: bool,
+		/// Whether no hop's HMAC matched (`peeled_error_packet` is set).
+		pub unattributed: bool,
+	}
+
+	/// `process_onion_failure_inner` for an outbound payment along `path`.
+	pub fn process_failure<T: secp256k1::Signing, L: Logger>(
+		secp_ctx: &Secp256k1<T>, logger: &L, path: &Path, session_priv: &SecretKey, data: Vec<u8>,
+		attribution_data: Option<Vec<u8>>,
+	) -> DecodedFailure {
+		let packet = OnionErrorPacket { data, attribution_data: attr_from_bytes(&attribution_data) };
+		let decoded = process_onion_failure_inner(secp_ctx, logger, path, session_priv, None, packet);
+		let (failed_node, failed_channel) = match decoded.network_update {
+			Some(NetworkUpdate::NodeFailure { node_id, .. }) => (Some(node_id), None),
+			Some(NetworkUpdate::ChannelFailure { short_channel_id, .. }) => {
+				(None, Some(short_channel_id))
+			},
+			None => (None, None),
+		};
+		DecodedFailure {
+			code: decoded.onion_error_code.map(|c| c.failure_code()),
+			data: decoded.onion_error_data,
+			hold_times: decoded.hold_times,
+			short_channel_id: decoded.short_channel_id,
+			failed_node,
+			failed_channel,
+			payment_failed_permanently: decoded.payment_failed_permanently,
+			failed_within_blinded_path: decoded.failed_within_blinded_path,
+			unattributed: decoded.peeled_error_packet.is_some(),
+		}
+	}
+
+	/// `process_fulfill_attribution_data`.
+	pub fn fulfill_attribution(
+		attribution_data: Option<Vec<u8>>, shared_secret: &[u8; 32], hold_time: u32,
+	) -> Vec<u8> {
+		process_fulfill_attribution_data(
+			attr_from_bytes(&attribution_data),
+			shared_secret,
+			hold_time,
+		)
+		.encode()
+	}
+
+	/// `decode_fulfill_attribution_data`.
+	pub fn decode_fulfill<T: secp256k1::Signing, L: Logger>(
+		secp_ctx: &Secp256k1<T>, logger: &L, path: &Path, session_priv: &SecretKey,
+		attribution_data: Vec<u8>,
+	) -> Vec<u32> {
+		decode_fulfill_attribution_data(
+			secp_ctx,
+			logger,
+			path,
+			session_priv,
+			attr_from_bytes(&Some(attribution_data)).unwrap(),
+		)
+	}
+
+	/// `MAX_HOPS`, `HOLD_TIME_LEN`, `HMAC_LEN`, `ONION_DATA_LEN`, `DEFAULT_MIN_FAILURE_PACKET_LEN`.
+	pub fn constants() -> Vec<(&'static str, u64)> {
+		vec![
+			("MAX_HOPS", MAX_HOPS as u64),
+			("HOLD_TIME_LEN", HOLD_TIME_LEN as u64),
+			("HMAC_LEN", HMAC_LEN as u64),
+			("HMAC_COUNT", HMAC_COUNT as u64),
+			("ONION_DATA_LEN", ONION_DATA_LEN as u64),
+			("DEFAULT_MIN_FAILURE_PACKET_LEN", DEFAULT_MIN_FAILURE_PACKET_LEN as u64),
+			("LN_MAX_MSG_LEN", LN_MAX_MSG_LEN as u64),
+		]
+	}
+}
